@@ -19,7 +19,7 @@ MAX_STEPS = 160
 
 BEHAVIOURS = ("value", "none", "callresult", "unserializable", "oversized", "raise-app", "raise-mapped", "raise-unmapped",
               "raise-unserializable-args", "pending-ok", "pending-fail", "pending-forever", "progress-then-value",
-              "coroutine-ok", "coroutine-fail", "pending-absorbs-cancel", "pending-cancel-raises-app", "at-limit")
+              "coroutine-ok", "coroutine-fail", "pending-absorbs-cancel", "pending-cancel-raises-app", "at-limit", "unserializable-int")
 
 
 class Unserializable:
@@ -175,6 +175,9 @@ class World(StackWorld):
             return types.CallResult(*inv.cr_args, **inv.cr_kwargs)
         if b == "unserializable":
             return Unserializable()
+        if b == "unserializable-int":
+            # an ordinary Python value that this serializer cannot put on the wire (MsgPack: integers beyond 64 bits)
+            return {"total": 2 ** 70}
         if b == "oversized":
             if self.cfg.get("deflate"):
                 return _incompressible(2 * inv.big + 64, inv.id)
@@ -294,6 +297,8 @@ class World(StackWorld):
         inv.token = "t%d" % inv.id
         inv.behaviour = ch.pick(BEHAVIOURS, "behaviour")
         if inv.behaviour == "oversized" and self.limit is None:
+            inv.behaviour = "value"
+        if inv.behaviour == "unserializable-int" and self.cfg["ser"] != "msgpack":
             inv.behaviour = "value"
         if inv.behaviour == "at-limit":
             # a result whose YIELD is exactly as large as the transport allows: still a result
@@ -469,7 +474,7 @@ class World(StackWorld):
                                 "invocation %d, last escaped exception: %s" % (inv.id, getattr(self, "last_escape", None)))
                 continue
             tkind, m = terms[0]
-            must_error = b in ("unserializable", "oversized", "raise-app", "raise-mapped", "raise-unmapped", "raise-unserializable-args",
+            must_error = b in ("unserializable", "unserializable-int", "oversized", "raise-app", "raise-mapped", "raise-unmapped", "raise-unserializable-args",
                                "pending-fail", "coroutine-fail")
             may_error = inv.interrupts > 0 and b in ("pending-ok", "pending-fail", "pending-forever", "coroutine-ok", "coroutine-fail",
                                                      "pending-absorbs-cancel", "pending-cancel-raises-app") or \
